@@ -192,7 +192,7 @@ def _derived(draw):
         else:
             spec = draw(sample_spec(min_d=1, max_d=3, min_n=1, max_n=25, datatypes=('I', 'F'), log_amp=False))
             spec['negatives'] = draw(st.booleans())
-            sets.append(dict(spec=spec, to_rfi=draw(st.booleans())))
+            sets.append(dict(spec=spec, to_rfi=draw(st.sampled_from([False, True, 'log']))))
     over = {}
     for kname, strat in (('T', st.floats(1, 1e8)), ('M', st.floats(0.5, 12)), ('W', st.floats(0, 3))):
         if draw(st.integers(0, 4)) == 0:
@@ -248,7 +248,14 @@ def check(case, obs):
             else:
                 d = build(sset['spec'])
                 ch = 0
-                if sset['to_rfi']:
+                if sset['to_rfi'] == 'log':
+                    # a log amplifier: the converted range starts at 1, not at 0; T is still its upper limit
+                    R0 = float(sset['spec']['ranges'][0])
+                    d = FlowCal.transform.to_rfi(d, 0, amplification_type=(4.0, 1.0), resolution=R0)
+                    exp_T = max(exp_T, float(d.range(0)[1]))
+                    obs.claim('derived', abs(d.range(0)[1] - 10 ** (4.0 * (R0 - 1) / R0)) <= 1e-9 * d.range(0)[1] and d.range(0)[0] == 1.0,
+                              'converted range is not [1, 10^(4(R-1)/R)]')
+                elif sset['to_rfi']:
                     d = FlowCal.transform.to_rfi(d, 0, amplification_type=(0.0, 0.0), amplifier_gain=2.0)
                     exp_T = max(exp_T, (float(sset['spec']['ranges'][0]) - 1) / 2.0)
                 else:
